@@ -16,7 +16,8 @@ RULE = ("histories over a pool of (kind, parameters, seed) descriptors, kind in 
         "trajectory of a descriptor is the reference; every later reproduction must be bit-identical at every row count; "
         "seeded operations must leave numpy's global state untouched; different seeds give different screens; unseeded "
         "calls differ. Non-trivial history: a reproduction separated from its reference by >=1 global-RNG perturbation and "
-        ">=1 operation on another instance. Distinct = canonical JSON.")
+        ">=1 operation on another instance. Distinct = canonical JSON."
+        " Also: pristine interpreters run under different string-hash salts; unseeded screens from 4-16 workers forked after import are pairwise distinct; unseeded calls differ with the global state reset before each.")
 ASSUMPTIONS = ["bit-identical = numpy.array_equal on float64 arrays (no tolerance)",
                "collision of two different seeds / two unseeded calls is treated as impossible (asserted as inequality)"]
 
